@@ -123,3 +123,27 @@ Qed.
 Lemma copy_root_fails_unresolved user_map platform entries_of :
   copy_root None user_map platform entries_of = None.
 Proof. reflexivity. Qed.
+
+(* prologue reads vs the copy: a node read in the prologue and not cached is read again by copyGraph
+   only if it is the (mapped) root's own content or its config -- the two mechanisms of the known finding
+   prologue-read-twice; a manifest root resolved through a ReferenceFetcher is cached and not read again *)
+Lemma prologue_manifest_root_cached root0 pt :
+  cache_after_resolve true true false root0 = [root0] /\
+  ~ In root0 (filter (fun x => negb (memb x [root0])) (match pt with PTList => [root0] | _ => [] end)).
+Proof.
+  split; [reflexivity|]. destruct pt; simpl; auto. rewrite Nat.eqb_refl. simpl. auto.
+Qed.
+
+Lemma prologue_fetches_nodes reffetch root0 mapped pt cache x :
+  In x (prologue_fetches reffetch root0 mapped pt cache) ->
+  x = root0 \/ x = mapped \/ (exists ok, pt = PTImage x ok).
+Proof.
+  unfold prologue_fetches. intro H. apply in_app_iff in H as [H|H].
+  - destruct reffetch; [destruct H as [<-|[]]; auto | contradiction].
+  - apply filter_In in H as [H _].
+    destruct pt as [| |cb ok|]; simpl in H; try contradiction.
+    + destruct H as [<-|[]]; auto.
+    + destruct ok; simpl in H.
+      * destruct H as [<-|[<-|[]]]; eauto.
+      * destruct H as [<-|[]]; auto.
+Qed.
